@@ -521,6 +521,86 @@ def _work(task):
     return fam, n, cyc, reordered, found
 
 
+# ---------------------------------------------------------------------------
+# One pass over a model with several scopes (main graph, two functions), each sorted / unsorted / cyclic, each
+# optionally holding its nodes inside a control-flow body: a cycle anywhere must leave EVERY order as it was
+
+MS_STATES = ("sorted", "unsorted", "cyclic", "unsorted_in_body", "cyclic_in_body")
+
+
+def _ms_scope(tag, state):
+    x = ir.Value(name=f"{tag}_x")
+    a = ir.Node("", "Relu", [x], name=f"{tag}_a")
+    b = ir.Node("", "Neg", [a.outputs[0]], name=f"{tag}_b")
+    c = ir.Node("", "Abs", [b.outputs[0]], name=f"{tag}_c")
+    for n in (a, b, c):
+        n.outputs[0].name = n.name + "_o"
+    if state.startswith("cyclic"):
+        a.replace_input_with(0, c.outputs[0])
+    nodes = [a, b, c] if state.startswith("sorted") or state.startswith("cyclic") else [c, a, b]
+    if state.endswith("_in_body"):
+        body = ir.Graph([], [c.outputs[0]], nodes=nodes, name=f"{tag}_body")
+        host = ir.Node("", "If", [x], [ir.AttrGraph("then_branch", body)], name=f"{tag}_if")
+        host.outputs[0].name = f"{tag}_if_o"
+        return ir.Graph([x], [host.outputs[0]], nodes=[host], name=f"{tag}_g", opset_imports={"": 20})
+    return ir.Graph([x], [c.outputs[0]], nodes=nodes, name=f"{tag}_g", opset_imports={"": 20})
+
+
+def _ms_orders(model):
+    out = {}
+    for scope in [model.graph] + [f for f in model.functions.values()]:
+        for g in [scope] + list(scope.subgraphs()):
+            out[g.name] = [n.name for n in g]
+    return out
+
+
+def check_multi_scope(states):
+    from onnx_ir.passes.common import TopologicalSortPass
+
+    main = _ms_scope("m", states[0])
+    fns = [ir.Function("local", f"F{i}", "", graph=_ms_scope(f"f{i}", st), attributes=[]) for i, st in enumerate(states[1:])]
+    model = ir.Model(main, ir_version=10, functions=fns)
+    before = _ms_orders(model)
+    any_cycle = any(s.startswith("cyclic") for s in states)
+    try:
+        res = TopologicalSortPass()(model)
+        exc = None
+    except ValueError as e:
+        res, exc = None, e
+    except Exception as e:  # noqa: BLE001
+        return [("pass_raises_something_else", f"{type(e).__name__}: {e}"[:100])]
+    after = _ms_orders(model)
+    out = []
+    if any_cycle:
+        if exc is None:
+            out.append(("cycle_not_reported_by_the_pass", list(states)))
+        elif after != before:
+            out.append(("order_changed_in_some_scope_although_the_pass_raised_for_a_cycle", {k: (before[k], after[k]) for k in before if before[k] != after[k]}))
+        return out
+    if exc is not None:
+        out.append(("acyclic_model_rejected_by_the_pass", str(exc)[:80]))
+        return out
+    for k, order in after.items():
+        pos = {n: i for i, n in enumerate(order)}
+        tag = k.rsplit("_", 1)[0]
+        names = [f"{tag}_a", f"{tag}_b", f"{tag}_c"]
+        if all(n in pos for n in names) and not (pos[names[0]] < pos[names[1]] < pos[names[2]]):
+            out.append(("scope_left_unsorted_by_the_pass", (k, order)))
+    if (after != before) != bool(res.modified):
+        out.append(("modified_flag_of_the_pass_wrong", (after != before, res.modified)))
+    return out
+
+
+def _ms_work(task):
+    found = {}
+    n = 0
+    for states in task:
+        n += 1
+        for clause, detail in check_multi_scope(states):
+            found.setdefault(f"multi_scope_pass|{clause}", {"struct": {"multi_scope": list(states)}, "via": "pass", "clause": clause, "detail": detail})
+    return "multi_scope_pass", n, sum(1 for st in task if any(s.startswith("cyclic") for s in st)), 0, found
+
+
 def main(tier):
     r = common.Run("C12", "exploration", tier)
     tasks = []
@@ -538,6 +618,8 @@ def main(tier):
     hs = list(gen_history_structs())
     hstep = max(1, len(hs) // 64)
     res += common.pmap(_history_work, [hs[i:i + hstep] for i in range(0, len(hs), hstep)])
+    ms = list(itertools.product(MS_STATES, repeat=3))
+    res += common.pmap(_ms_work, [ms[i:i + 16] for i in range(0, len(ms), 16)])
     per = {}
     found = {}
     for fam, n, cyc, reo, f in res:
@@ -548,7 +630,10 @@ def main(tier):
         for k, v in f.items():
             found.setdefault(k, v)
     for key, f in sorted(found.items()):
-        if f["struct"].get("history_edit"):
+        if f["struct"].get("multi_scope"):
+            v2 = check_multi_scope(tuple(f["struct"]["multi_scope"]))
+            v3 = check_multi_scope(tuple(f["struct"]["multi_scope"]))
+        elif f["struct"].get("history_edit"):
             st = {k: v for k, v in f["struct"].items() if k != "history_edit"}
             v2 = check_history(st, f["struct"]["history_edit"])
             v3 = check_history(st, f["struct"]["history_edit"])
@@ -579,6 +664,9 @@ def replay(obj):
         return x
 
     s = obj["input"]
+    if s.get("multi_scope"):
+        v = check_multi_scope(tuple(s["multi_scope"]))
+        return (not [x for x in v if x[0] == obj["oracle"]]), v
     st = {"main": [fix(i) for i in s["main"]]}
     for k in ("body", "deep"):
         if s.get(k):
